@@ -1,21 +1,8 @@
 #!/bin/sh
-# tools/seed_matrix.sh [tier] : run every seeded change against the check of its own property in a scratch
-# worktree of /repo (never touches /repo itself); writes /verif/seeded/RESULTS.txt
-tier="${1:-quick}"
-wt=$(mktemp -d /tmp/seedwt.XXXXXX)
-git -C /repo worktree add -q --detach "$wt/repo" HEAD || exit 3
+# tools/seed_matrix.sh [tier] [parallel] : run every seeded change against the check of its own property, each in its
+# own scratch worktree of /repo (never touches /repo itself); writes /verif/seeded/RESULTS_<tier>.txt
+tier="${1:-quick}"; par="${2:-4}"
 out=/verif/seeded/RESULTS_$tier.txt
-: > "$out"
-for dir in /verif/seeded/C*_*; do
-  name=$(basename "$dir"); pid=${name%_*}
-  git -C "$wt/repo" checkout -q -- . ; git -C "$wt/repo" apply "$dir/patch.diff" || { echo "$name patch-does-not-apply" >> "$out"; continue; }
-  extra=""
-  [ -f "$dir/also_checked_by" ] && extra=$(cat "$dir/also_checked_by")
-  for chk in $pid $extra; do
-    VERIF_REPO="$wt/repo" VERIF_OUT="$wt/out" VERIF_EVID="$wt/evid" /verif/check "$chk" --tier "$tier" > "$wt/log" 2>&1
-    rc=$?
-    echo "$name check=$chk rc=$rc violations=$(grep -c '^VIOLATION' $wt/log) $(grep -m1 'sig=' $wt/log | cut -c1-160)" >> "$out"
-  done
-done
-git -C /repo worktree remove --force "$wt/repo"; rm -rf "$wt"
-cat "$out"
+ls -d /verif/seeded/C*_* | xargs -n1 basename | xargs -P "$par" -I{} sh -c 'n={}; /verif/tools/seed_one.sh "$n" '"$tier"' "${n%_*}"' > "$out.tmp" 2>&1
+sort "$out.tmp" | grep -v "^WARNING" > "$out"; rm -f "$out.tmp"
+echo "caught: $(grep -c 'rc=1' $out) of $(ls -d /verif/seeded/C*_* | wc -l)"; grep -v "rc=1" "$out"
